@@ -17,6 +17,8 @@ import Earverif.Proofs.C08TimeRat
 import Earverif.Proofs.C08Ids
 import Earverif.Model.Chna
 import Earverif.Gen.C08_Handlers
+import Earverif.Proofs.C08Leaf
+import Earverif.Proofs.C08Custom
 
 namespace Earverif.C08
 open Earverif.Digits Earverif.TimeFormat Earverif.GenIds
@@ -556,40 +558,134 @@ when the item is absent (or the item is required and never elided).  The hand-wr
 `GenericElement` handlers appear in the table by name only. -/
 
 section Tables
-open Earverif.Gen.C08
+open Earverif.Gen.C08 Earverif.XmlCodec
 
-def attrKeys (rows : List Row) : List String :=
-  (rows.filter fun r => r.kind == "Attribute" || r.kind == "TypeAttribute").map (·.admName)
-
-def elemKeys (rows : List Row) : List String :=
-  (rows.filter fun r => r.kind == "AttrElement" || r.kind == "ListElement" || r.kind == "CustomElement").map (·.admName)
-
-def declArgs (rows : List Row) : List String :=
-  (rows.filter fun r =>
-    (r.kind == "Attribute" || r.kind == "AttrElement" || r.kind == "ListElement") && !r.parseOnly).map (·.argName)
-
-/-- default elision is symmetric: optional items elide exactly the constructor default; required items are
-never elided (`default=None`) -/
-def defaultsOK (rows : List Row) : Bool :=
-  rows.all fun r =>
-    !(r.kind == "Attribute" || r.kind == "AttrElement") || r.parseOnly ||
-    (if r.required then r.handlerDefault == "None"
-     else r.classDefault == "<no-class>" || r.handlerDefault == r.classDefault)
+def defaultsOK (rows : List Row) : Bool := rows.all rowDefaultOK
+def enumsOK (rows : List Row) : Bool := rows.all rowEnumOK
+def parseOnlyOK (rows : List Row) : Bool := rows.all rowParseOnlyOK
 
 def parserOK (rows : List Row) : Bool :=
-  decide (attrKeys rows).Nodup && decide (elemKeys rows).Nodup && decide (declArgs rows).Nodup && defaultsOK rows
+  rowsKeysOK rows && defaultsOK rows && enumsOK rows && parseOnlyOK rows
 
 /-- every extracted `ElementParser` satisfies the side conditions (re-decided by the kernel on every run
-against the tables extracted from the code as it is now) -/
+against the tables extracted from the code as it is now): attribute keys, element names and written
+argument names pairwise distinct, at most one text handler, elided default = constructor default, enum
+tables injective -/
 theorem handlers_wellformed : ∀ p ∈ parsers, parserOK p.2 = true := by decide +kernel
 
-/-- the table is not empty: 36 parsers (18 per version … ) with at least 250 property rows -/
+/-- the table is not empty: at least 30 parsers with at least 250 property rows -/
 theorem handlers_table_nontrivial : 30 ≤ parsers.length ∧ 250 ≤ (parsers.map (·.2.length)).sum := by
   decide +kernel
 
 /-- every ID in the shipped common-definitions file has a counter field `≤ 0x0FFF`, i.e. below every
 generated ID (`ids_disjoint_from_common`, `above_common_ne`) -/
 theorem common_ids_in_reserved_range : ∀ e ∈ commonIdRanges, e.2.2.2 ≤ 0x0FFF := by decide +kernel
+
+/-- **The combinator round trip instantiated with the regenerated handler tables.**  For every extracted
+`ElementParser` (both versions) — with the hand-written handlers supplied as arbitrary parameters `impl`
+that satisfy the frame condition in `FieldOK` — parsing what `to_xml` wrote gives back every declarative
+argument (and the constructor default for every other argument in `S`).  The key-distinctness hypotheses of
+`codec_roundtrip` are discharged by `handlers_wellformed`, i.e. by the tables as the code declares them now. -/
+theorem handlers_codec_roundtrip :
+    ∀ t ∈ parsers, ∀ (impl : Row → CustomImpl Leaf) (S : String → Prop) (name : String) (o cd : Obj Leaf),
+      (∀ a ∈ declArgs (ofRows impl t.2), S a) →
+      (∀ p ∈ ofRows impl t.2, FieldOK (ofRows impl t.2) S o cd p) →
+      (∀ kw, parseStages (ofRows impl t.2) (toXml (ofRows impl t.2) name o) = some kw →
+        ∀ p ∈ ofRows impl t.2, p.isCustom = true → ∀ a, p.requiredArg? = some a → (kw a).isSome) →
+      ∃ o', parse (ofRows impl t.2) cd (toXml (ofRows impl t.2) name o) = some o' ∧
+        (∀ a ∈ declArgs (ofRows impl t.2), o' a = o a) ∧
+        (∀ a, S a → a ∉ declArgs (ofRows impl t.2) → o' a = cd a) := by
+  intro t ht impl S name o cd hS hF hreq
+  have hok := handlers_wellformed t ht
+  simp only [parserOK, Bool.and_eq_true] at hok
+  exact codec_roundtrip _ S name o cd ⟨keysOK_ofRows impl t.2 hok.1.1.1, hS, hF⟩ hreq
+
+/-- **… with the field hypotheses reduced to statements about values.**  For every extracted parser: if each
+declarative argument of the object holds a value in the domain of its codec (`RowValueOK`: the codec named in
+the table round-trips on it, required values are not `None`, enum members belong to the row's enum), `cd` is the
+constructor-default map recorded in the table (`CdOK`) and the hand-written handlers satisfy the frame
+condition, then parsing what `to_xml` wrote gives the declarative arguments back.  Key distinctness, symmetric
+default elision (`handler default = constructor default`), injective enum tables and "parse-only is never
+required" are discharged by `handlers_wellformed`, i.e. re-checked against the code's tables on every run. -/
+theorem handlers_roundtrip_values :
+    ∀ t ∈ parsers, ∀ (impl : Row → CustomImpl Leaf) (S : String → Prop) (name : String) (o cd : Obj Leaf),
+      (∀ a ∈ declArgs (ofRows impl t.2), S a) →
+      (∀ r ∈ t.2, RowValueOK o r) → (∀ r ∈ t.2, CdOK cd r) →
+      (∀ r ∈ t.2, (r.kind = "CustomElement" → FrameOK (ofRows impl t.2) S o (some r.admName) (impl r)) ∧
+        (r.kind ≠ "Attribute" → r.kind ≠ "AttrElement" → r.kind ≠ "ListElement" → r.kind ≠ "HandleText" →
+          r.kind ≠ "TypeAttribute" → r.kind ≠ "CustomElement" → FrameOK (ofRows impl t.2) S o none (impl r))) →
+      (∀ kw, parseStages (ofRows impl t.2) (toXml (ofRows impl t.2) name o) = some kw →
+        ∀ p ∈ ofRows impl t.2, p.isCustom = true → ∀ a, p.requiredArg? = some a → (kw a).isSome) →
+      ∃ o', parse (ofRows impl t.2) cd (toXml (ofRows impl t.2) name o) = some o' ∧
+        (∀ a ∈ declArgs (ofRows impl t.2), o' a = o a) ∧
+        (∀ a, S a → a ∉ declArgs (ofRows impl t.2) → o' a = cd a) := by
+  intro t ht impl S name o cd hS hv hcd hfr hreq
+  have hok := handlers_wellformed t ht
+  simp only [parserOK, Bool.and_eq_true, defaultsOK, enumsOK, parseOnlyOK, List.all_eq_true] at hok
+  obtain ⟨⟨⟨_, hd⟩, he⟩, hp⟩ := hok
+  refine handlers_codec_roundtrip t ht impl S name o cd hS ?_ hreq
+  intro p hp'
+  unfold ofRows at hp'
+  obtain ⟨r, hr, rfl⟩ := List.mem_map.mp hp'
+  exact fieldOK_ofRow impl _ S o cd r (hd r hr) (he r hr) (hp r hr) (hv r hr) (hcd r hr) (hfr r hr)
+
+/-- non-vacuity of the value hypotheses: an `integratedLoudness` of -23.0 (a `FloatType` `AttrElement`, optional,
+default `None`), and the matching constructor default -/
+example :
+    RowValueOK (fun _ => .one (.num (-2300000)))
+      ⟨"AttrElement", "integratedLoudness", "integratedLoudness", "integratedLoudness", "FloatType", "None", "None",
+        false, false, "", [], "-"⟩ ∧
+    CdOK (fun _ => .one .none)
+      ⟨"AttrElement", "integratedLoudness", "integratedLoudness", "integratedLoudness", "FloatType", "None", "None",
+        false, false, "", [], "-"⟩ := by
+  constructor
+  · simp [RowValueOK, codecOf, floatCodec_roundtrip]
+  · simp [CdOK, leafOfRepr]
+
+/-- a row handled by one of the declarative combinators -/
+def rowDeclarative (r : Row) : Bool :=
+  r.kind == "Attribute" || r.kind == "AttrElement" || r.kind == "ListElement" || r.kind == "HandleText" ||
+  r.kind == "TypeAttribute"
+
+/-- … and for the extracted parsers that consist of declarative properties only, the object itself comes back
+and a second generation reproduces the same tree -/
+theorem handlers_codec_roundtrip_pure :
+    ∀ t ∈ parsers, t.2.all rowDeclarative = true →
+      ∀ (impl : Row → CustomImpl Leaf) (name : String) (o cd : Obj Leaf),
+      (∀ p ∈ ofRows impl t.2, FieldOK (ofRows impl t.2) (fun _ => True) o cd p) →
+      (∀ a, a ∉ declArgs (ofRows impl t.2) → o a = cd a) →
+      parse (ofRows impl t.2) cd (toXml (ofRows impl t.2) name o) = some o ∧
+      (parse (ofRows impl t.2) cd (toXml (ofRows impl t.2) name o)).map (toXml (ofRows impl t.2) name)
+        = some (toXml (ofRows impl t.2) name o) := by
+  intro t ht hpure impl name o cd hF hrest
+  have hok := handlers_wellformed t ht
+  simp only [parserOK, Bool.and_eq_true] at hok
+  refine codec_roundtrip_pure _ name o cd ⟨keysOK_ofRows impl t.2 hok.1.1.1, fun _ _ => trivial, hF⟩ ?_ hrest
+  intro p hp
+  unfold ofRows at hp
+  obtain ⟨r, hr, rfl⟩ := List.mem_map.mp hp
+  have := (List.all_eq_true.mp hpure) r hr
+  simp only [rowDeclarative, Bool.or_eq_true, beq_iff_eq] at this
+  unfold ofRow
+  split_ifs <;> simp_all [Property.isCustom]
+
+/-- the purely declarative parsers in the current tables (non-vacuity of `handlers_codec_roundtrip_pure`):
+loudnessMetadata, audioPackFormat, audioStreamFormat, audioTrackFormat and the BS.2076-2 audioTrackUID -/
+theorem handlers_pure_count :
+    8 ≤ (parsers.filter fun t => t.2.all rowDeclarative).length := by
+  decide +kernel
+
+/-- `TimeType` / `TimeTypeV1` as field codecs: decimal times (either version) -/
+theorem timeCodec_roundtrip_dec (af : Bool) (q : ℚ) (h0 : 0 ≤ q) (h1 : q < 360000) (hx : ExactDecimal q) :
+    (timeCodec af).loads ((timeCodec af).dumps (.time (.dec q))) = some (.time (.dec q)) := by
+  obtain ⟨s, hs, hp, hp1⟩ := time_roundtrip_decimal q h0 h1 hx af
+  cases af <;> simp [timeCodec, hs, hp, hp1]
+
+/-- … and explicit `FractionalTime`s with the BS.2076-2 codec -/
+theorem timeCodec_roundtrip_frac (n d : ℕ) (hd : 0 < d) (h : n < 360000 * d) :
+    (timeCodec true).loads ((timeCodec true).dumps (.time (.frac n d))) = some (.time (.frac n d)) := by
+  obtain ⟨hs, hp⟩ := time_roundtrip_fractional n d hd h
+  simp [timeCodec, hs, hp]
 
 end Tables
 
